@@ -35,8 +35,11 @@ type State struct {
 	trace  []int // block indices
 	inLoop map[int]bool
 	loopPre map[int]*State // state at loop entry (before havoc), for pre()
+	loopSnap map[int]*loopSnap // state right after the loop havoc, to validate the havoc set at the back edge
+	writeLog []string           // heap arrays written so far on this path (allocation initialisers excluded)
 	allocs []Term // references allocated in this activation
 	boxed  map[string]Value // interface term -> the value it was made from
+	sinkOf map[string]Value // pointer term of a wrapping writer (bufio.Writer, ...) -> the io.Writer value it writes to
 	private map[string]bool // references allocated here that never escaped (survive havoc of unknown calls)
 	heapTop map[string]Term // allocation top when the current version of a heap array was created
 	entryTop Term
@@ -80,11 +83,20 @@ func (s *State) clone() *State {
 	for k, v := range s.inLoop {
 		n.inLoop[k] = v
 	}
+	n.writeLog = append([]string(nil), s.writeLog...)
+	n.loopSnap = make(map[int]*loopSnap, len(s.loopSnap))
+	for k, v := range s.loopSnap {
+		n.loopSnap[k] = v
+	}
 	n.loopPre = make(map[int]*State, len(s.loopPre))
 	for k, v := range s.loopPre {
 		n.loopPre[k] = v
 	}
 	n.allocs = append([]Term(nil), s.allocs...)
+	n.sinkOf = make(map[string]Value, len(s.sinkOf))
+	for k, v := range s.sinkOf {
+		n.sinkOf[k] = v
+	}
 	n.boxed = make(map[string]Value, len(s.boxed))
 	for k, v := range s.boxed {
 		n.boxed[k] = v
@@ -204,6 +216,9 @@ func (x *Exec) heapSet(st *State, kind string, base types.Type, leaf Leaf, val T
 	st.assume(mkEq(f, val))
 	st.heap[name] = f
 	x.setHeapTop(st, name)
+	if !x.initWrite {
+		st.writeLog = append(st.writeLog, name)
+	}
 }
 
 func (x *Exec) setHeapTop(st *State, name string) {
@@ -329,6 +344,15 @@ func (x *Exec) load(st *State, p *Ptr) Value {
 	v := Value{T: p.Sub, L: make([]Term, len(leaves))}
 	for j := range leaves {
 		v.L[j] = x.loadLeaf(st, p, j)
+	}
+	if p.Kind == pHeap && len(x.ck.fieldRanges) > 0 {
+		for j := range leaves {
+			lf := leafAt(p.Base, p.Off+j)
+			if r, ok := x.ck.fieldRanges[heapName("H", p.Base, lf.Path)]; ok {
+				x.assumptions["fieldrange "+heapName("H", p.Base, lf.Path)+" in ["+r[0]+", "+r[1]+"]"] = true
+				st.assume(mkAnd(mkCmp("<=", Term{r[0], sInt}, v.L[j]), mkCmp("<=", v.L[j], Term{r[1], sInt})))
+			}
+		}
 	}
 	if p.Kind != pLocal {
 		st.assumeAll(typeFacts(v))
@@ -483,4 +507,14 @@ func (st *State) escape(v Value) {
 			delete(st.private, l.S)
 		}
 	}
+}
+
+// loopSnap remembers what the loop havoc replaced and what the state looked like right after it.
+type loopSnap struct {
+	logLen  int
+	heap    map[string]Term
+	cells   map[int]Value
+	heapSet map[string]bool
+	cellSet map[int]bool
+	all     bool
 }
